@@ -27,11 +27,19 @@ Single ==
       base |-> 4, f |-> 0, exp |-> FALSE] :
         r \in BOOLEAN, m \in {1, 3}, st \in BOOLEAN, c \in {"none", "closed", "open"}, t \in BOOLEAN, s \in Scripts(2), cb \in {0, 1}}
 
-Canonical(S) == {s \in S : WellFormed(s) /\ s.cancelB <= s.max /\ Len(s.script) >= s.max}
+(* canonical form: parameters that cannot matter are fixed (back-off parameters need a second,    *)
+(* exponential growth a third attempt; a short-circuited request meets no backend at all)          *)
+Canonical(S) == {s \in S : /\ WellFormed(s) /\ s.cancelB <= s.max
+                           /\ (s.max = 1 => s.f = 0)
+                           /\ (s.max < 3 => ~s.exp)
+                           /\ (s.cb = "open" => /\ s.cancelB = 0 /\ ~s.exp /\ s.f = 0
+                                                /\ \A i \in 1..Len(s.script) : s.script[i] = s.script[1])}
 
-AllScenarios == Canonical(Retrying({0, 25, 50}, BOOLEAN, {"none", "closed", "open"}) \cup {x \in Single : ~(x.retry /\ ~x.stream)})
-(* the quick tier: one randomisation factor, breaker present *)
-QuickScenarios == Canonical(Retrying({50}, BOOLEAN, {"closed", "open"}) \cup {x \in Single : ~(x.retry /\ ~x.stream)})
+Unwrapped == {x \in Single : ~(x.retry /\ ~x.stream)}
+
+AllScenarios == Canonical(Retrying({0, 25, 50}, BOOLEAN, {"none", "closed", "open"}) \cup Unwrapped)
+(* the quick tier: two randomisation factors, breaker present *)
+QuickScenarios == Canonical(Retrying({0, 50}, BOOLEAN, {"closed", "open"}) \cup Unwrapped)
 (* for the negative controls *)
 SmallScenarios == Canonical(Retrying({0}, {FALSE}, {"closed"}))
 
